@@ -39,7 +39,13 @@ pub enum CovSpec {
     True,
     SigLegacy(usize),
     SigNew(usize),
+    /// spendable only while the previous block's height is below the bound ("expiring offer")
+    HeightBelow(u64),
+    /// spendable only once the previous block's height exceeds the bound (time lock)
+    HeightAbove(u64),
 }
+
+pub const HEIGHT_BOUNDS: [u64; 5] = [1, 2, 3, 5, 8];
 
 pub struct Keys {
     pub keys: Vec<(Ed25519PK, Ed25519SK)>,
@@ -68,6 +74,17 @@ impl CovSpec {
             CovSpec::True => melvm::Covenant::always_true(),
             CovSpec::SigLegacy(k) => melvm::Covenant::std_ed25519_pk_legacy(pk(*k)),
             CovSpec::SigNew(k) => melvm::Covenant::std_ed25519_pk_new(pk(*k)),
+            CovSpec::HeightBelow(t) | CovSpec::HeightAbove(t) => {
+                use melvm::opcode::OpCode as O;
+                // header = heap[10]; its height is element 2; `lt` is top < second
+                melvm::Covenant::from_ops(&[
+                    O::PushI(2u32.into()),
+                    O::LoadImm(10),
+                    O::VRef,
+                    O::PushI((*t).into()),
+                    if matches!(self, CovSpec::HeightBelow(_)) { O::Gt } else { O::Lt },
+                ])
+            }
         }
     }
     pub fn bytes(&self) -> Vec<u8> {
@@ -81,6 +98,19 @@ impl CovSpec {
             0 | 1 | 2 => CovSpec::True,
             3 | 4 => CovSpec::SigLegacy((i / 8) as usize % NKEYS),
             _ => CovSpec::SigNew((i / 8) as usize % NKEYS),
+        }
+    }
+    /// like from_sel, but one destination in eight is locked by a covenant that reads the previous header
+    pub fn from_sel_with_header(i: u8) -> CovSpec {
+        if i % 8 == 2 {
+            let t = HEIGHT_BOUNDS[(i / 8) as usize % HEIGHT_BOUNDS.len()];
+            if (i / 64) % 2 == 0 {
+                CovSpec::HeightBelow(t)
+            } else {
+                CovSpec::HeightAbove(t)
+            }
+        } else {
+            CovSpec::from_sel(i)
         }
     }
 }
@@ -283,6 +313,8 @@ pub struct World {
     pub staked_txs: Vec<(TxHash, StakeDoc, CovSpec)>,
     pub faucets_seen: Vec<Transaction>,
     pub blocks_sealed: u64,
+    /// transactions that passed an admission check on a scratch copy of the state and wait for inclusion
+    pub mempool: Vec<Transaction>,
 }
 
 /// One 2-thread rayon pool per shard thread, reused by every World created on that thread.
@@ -355,6 +387,7 @@ impl World {
             staked_txs: vec![],
             faucets_seen: vec![],
             blocks_sealed: 0,
+            mempool: vec![],
         }
     }
 
@@ -476,6 +509,10 @@ pub fn all_specs() -> Vec<CovSpec> {
             for k in 0..NKEYS {
                 v.push(CovSpec::SigLegacy(k));
                 v.push(CovSpec::SigNew(k));
+            }
+            for t in HEIGHT_BOUNDS {
+                v.push(CovSpec::HeightBelow(t));
+                v.push(CovSpec::HeightAbove(t));
             }
             v
         };
